@@ -104,6 +104,14 @@ def run(chk):
     # ---- R3
     n = compare(chk, "R3", None, [("polars", "sql")])
     chk.floor("R3", "verb x component comparisons", n, 24)
+    from ..siblings import marker_part_terms
+    from .. import seqterm as S
+
+    mp = marker_part_terms(sib)
+    for name in ("polars", "sql"):
+        chk.ob("R3", sib.cfgs[name].module, sib.cfgs[name].func, f"SubqueryMarker.PART: {name} = {S.show(mp[name])} (cache: {S.show(mp['cache'])})", mp[name] == mp["cache"] == S.PART,
+               f"grouping sequence after a subquery marker: {name} computes {S.show(mp[name])}, the cache {S.show(mp['cache'])}; a group_by before "
+               "an alias that becomes a subquery must still group the summarize after it")  # fmt: skip
 
     # ---- R4 operator coverage of Polars
     cat, regs = m.cat, m.regs
